@@ -148,6 +148,21 @@ func init() {
 	reg("strings.Contains", func(ex *Exec, fn *ssa.Function, a []Value) Value {
 		return ex.tc.Not(ex.tc.Eq(ex.strIndexOf(a[0].(Str), a[1].(Str), false), ex.tc.BV(^uint64(0), 64)))
 	})
+	indexAny := func(last bool) intrinsicFn {
+		return func(ex *Exec, fn *ssa.Function, a []Value) Value {
+			chars, ok := ex.strConcrete(a[1].(Str))
+			if !ok || !asciiOnly(chars) {
+				ex.unsupported("strings.IndexAny with a symbolic or non-ASCII character set")
+			}
+			return ex.strIndexAny(a[0].(Str), chars, last)
+		}
+	}
+	reg("strings.IndexAny", indexAny(false))
+	reg("strings.LastIndexAny", indexAny(true))
+	reg("strings.ContainsAny", func(ex *Exec, fn *ssa.Function, a []Value) Value {
+		idx := indexAny(false)(ex, fn, a).(*Term)
+		return ex.tc.Not(ex.tc.Eq(idx, ex.tc.BV(^uint64(0), 64)))
+	})
 	reg("strings.IndexByte", func(ex *Exec, fn *ssa.Function, a []Value) Value { return ex.strIndexByte(a[0].(Str), a[1].(*Term), false) })
 	reg("strings.LastIndexByte", func(ex *Exec, fn *ssa.Function, a []Value) Value { return ex.strIndexByte(a[0].(Str), a[1].(*Term), true) })
 	reg("internal/bytealg.IndexByteString", func(ex *Exec, fn *ssa.Function, a []Value) Value { return ex.strIndexByte(a[0].(Str), a[1].(*Term), false) })
